@@ -50,7 +50,7 @@ def run(ctx):
             m = re.match(r"(\w+) scenario (\d+)", want)
             if m:
                 env["VERIF_C09_ONLY"] = "%s:%s" % (m.group(1), m.group(2))
-        lines, rc, err = ctx.run_driver(drv, ["all"], env=env)
+        lines, rc, err = ctx.run_driver(drv, ["all"], env=env, timeout=(900 if ctx.tier == "thorough" else 300))
         crashed = None
         if rc != 0:
             last = re.findall(r"^scenario (\w+) (\d+)$", err, re.M)
